@@ -26,7 +26,7 @@ def generate(tier, seed):
     for d in ((40.0,) if tier == "quick" else (25.001, 40.0, 1100.0)):
         cases.append({"kind": "files", "a": "4DFR.pdb", "b": "4DFR.pdb", "d": d, "seed": "%d:f:%d" % (seed, k), "cost": 900})
         k += 1
-    n = 300 if tier == "quick" else 4000
+    n = 300 if tier == "quick" else 20000
     for i in range(n):
         cases.append({"kind": "built", "d": DIST[i % len(DIST)], "seed": "%d:b:%d" % (seed, i), "cost": 50})
     return cases
